@@ -24,7 +24,7 @@ _na = [l.split()[1] for l in _rv if 'does not apply' in l]
 revfix_summary = (f"{len(_ok)} of {len(_ok) + len(_zero) + len(_na)} re-introduced defects are reported again ("
                   + ", ".join(f"{l.split()[0]} {l.split()[1]} -> {re.search(r'violations=([0-9]+)', l).group(1)}" for l in _ok) + "). "
                   + f"{len(_na)} fix commits ({', '.join(_na)}) cannot be reverse-applied on HEAD any more because a later fix rewrote the same lines (they were reported when first reverted, see the git history of this file). "
-                  + f"The C05 repairs {', '.join(_zero)} are layered (root cause in Clipper, two robustness repairs in link_holes, XOR as union minus intersection): reverting ONE of them is masked by the others in the quick tier; reverting all four together is reported (3112 violations), and the tree before them produced 1.85 M violations in the thorough tier.")
+                  + f"The C05 repairs {', '.join(_zero)} are two of four layered repairs of one family (root cause in Clipper, two robustness repairs in link_holes, XOR as union minus intersection): reverting one of these two alone is masked by the others in the quick tier; reverting all four together is reported (3112 violations), and the tree before them produced 1.85 M violations in the thorough tier.")
 rounds = sorted({int(sid.split('-')[1]) for sid, m in seeds})
 rounds_line = ", ".join(f"round {r}: {first_time(r)}/{total(r)}" for r in rounds)
 pending = sum(1 for sid, m in seeds if 'detected_by' not in m)
